@@ -155,10 +155,82 @@ pub fn run(tier: &Tier) -> i32 {
             }
         }
     }
+    drop(t);
+    // ---- through the real binary: the driver's handling of taken jumps, in particular of jumps onto
+    //      themselves (delay loops), plain, under -i and under the trap flag
+    let cli_n = {
+        use crate::ast::b::*;
+        crate::cli::ensure_bin();
+        let mut progs: Vec<(String, Program, bool, bool)> = Vec::new();
+        let mb = std::collections::HashMap::new();
+        // (a) self-targeting LOOPx with small counts, both ZF values: plain, -i, trap flag
+        for mn in ["loop", "loope", "loopz", "loopne", "loopnz"] {
+            for zf in [false, true] {
+                for cx in [1i32, 2, 5] {
+                    for mode in 0..3 {
+                        let mut code = vec![label("start")];
+                        if mode == 2 {
+                            code.push(mov(r16("ax"), imm(0x0100)));
+                            code.push(push(r16("ax")));
+                            code.push(z(ZeroOp::Popf));
+                        }
+                        code.push(mov(r16("cx"), imm(cx)));
+                        // ZF by an instruction: xor bx,bx sets it, or bx,1 clears it
+                        if zf {
+                            code.push(bin(BinOp::Xor, r16("bx"), r16("bx")));
+                        } else {
+                            code.push(bin(BinOp::Or, r16("bx"), imm(1)));
+                        }
+                        code.push(label("w_"));
+                        code.push(jmp(mn, "w_"));
+                        code.push(un(UnOp::Inc, r16("dx")));
+                        code.push(print(PrintKind::Reg));
+                        code.push(print(PrintKind::Flags));
+                        progs.push((format!("{} onto itself, ZF={}, CX={}, mode {}", mn, zf as u8, cx, ["plain", "-i", "trap flag"][mode]), Program { data: vec![], code }, mode == 1, false));
+                    }
+                }
+            }
+        }
+        // (b) conditional jumps taken and not taken around a block, backward jump ending a counted loop
+        for mn in ["je", "jne", "jc", "jnc", "js", "jo", "jcxz", "jbe", "jg"] {
+            for setup in [0, 1] {
+                let mut code = vec![label("start"), mov(r16("cx"), imm(setup))];
+                code.push(mov(r16("ax"), imm(if setup == 0 { 5 } else { 0x7FFF })));
+                code.push(bin(BinOp::Add, r16("ax"), imm(if setup == 0 { -5 } else { 1 })));
+                code.push(jmp(mn, "skip_"));
+                code.push(mov(r16("si"), imm(0x0BAD)));
+                code.push(label("skip_"));
+                code.push(un(UnOp::Inc, r16("dx")));
+                code.push(print(PrintKind::Reg));
+                progs.push((format!("{} around a block, setup {}", mn, setup), Program { data: vec![], code }, false, false));
+            }
+        }
+        // (c) delay loops: long self-targeting loops one after another with straight-line code in between
+        for counts in [vec![40000i32, 40000], vec![0], vec![65535, 2, 3], vec![30000, 30000, 30000]] {
+            let mut code = vec![label("start")];
+            for (k, n) in counts.iter().enumerate() {
+                code.push(mov(r16("cx"), imm(*n)));
+                code.push(Item::Label(format!("d{}_", k)));
+                code.push(Item::Ins(Instr::Jmp("loop".into(), format!("d{}_", k))));
+                code.push(un(UnOp::Inc, r16("ax")));
+            }
+            code.push(print(PrintKind::Reg));
+            progs.push((format!("delay loops {:?}", counts), Program { data: vec![], code }, false, true));
+        }
+        progs.par_iter().for_each(|(name, prog, interp, long)| {
+            let stdin: Vec<String> = vec!["n".to_string(); 60];
+            let src = render(prog);
+            let (rr, out, res) = cli_conformance_src(&src, prog, &mb, &stdin, *interp, if *long { 400_000 } else { 5000 });
+            c.add_exec(1);
+            c.outcome(&format!("cli {:?}", rr.stop));
+            report_cli(rep, "cli jumps and loops", res, &src, &stdin, *interp, &out, json!(name));
+        });
+        progs.len()
+    };
     let mut cov = Coverage::default();
     cov.exhaustive = true;
-    cov.rule = "source `tgt: <mnemonic> tgt` for all 32 jump and 5 loop spellings of syntax.md in lower and upper case (74 programs) through the real Preprocessor; the emitted line executed by the real Interpreter for ALL 2^16 flag words x CX in {0,1} (jumps) resp. ALL 2^16 CX values x ZF x 4 flag words (JCXZ, LOOPx); outcome JMP(target)/NEXT, CX, flags and all registers compared with the Intel predicate table; synonyms and complementary pairs cross-checked on the recorded behaviour".into();
-    cov.bounds = json!({"spellings": spellings.len(), "flag_words": 65536, "cx_values": 65536, "backgrounds": backgrounds.len(), "tier": tier.name()});
+    cov.rule = "source `tgt: <mnemonic> tgt` for all 32 jump and 5 loop spellings of syntax.md in lower and upper case (74 programs) through the real Preprocessor; the emitted line executed by the real Interpreter for ALL 2^16 flag words x CX in {0,1} (jumps) resp. ALL 2^16 CX values x ZF x 4 flag words (JCXZ, LOOPx); outcome JMP(target)/NEXT, CX, flags and all registers compared with the Intel predicate table; synonyms and complementary pairs cross-checked on the recorded behaviour. Through the real binary: every LOOPx spelling jumping onto itself x ZF x CX in {1,2,5}, plain, single-stepped with -i and under a program-set trap flag; 9 conditional jumps taken and not taken around a block; delay loops of 30 000 - 65 536 rounds one after another (stdout matched against the reference interpreter)".into();
+    cov.bounds = json!({"spellings": spellings.len(), "flag_words": 65536, "cx_values": 65536, "backgrounds": backgrounds.len(), "programs_through_the_binary": cli_n, "tier": tier.name()});
     cov.assumptions = common_assumptions();
     let cov = finish_cov(c, cov);
     // vacuity guard: both outcomes must have been seen
